@@ -207,3 +207,12 @@ Fixpoint py_combinations2 {A} (l : list A) : list (A * A) :=
   end.
 (* sparse.coo_array((data, (i, j)), shape=(r, c)): entry k is data[k] at row i[k], column j[k] *)
 Record coo := mk_coo { coo_data : list Q; coo_i : list nat; coo_j : list nat; coo_rows : Z; coo_cols : Z }.
+(* a defaultdict(list-like) used only through d[k].append(v), represented by the log of its insertions:
+   values() = one list per key, keys in order of first insertion, values in order of insertion *)
+Fixpoint dd_insert {A} (k : nat) (v : A) (d : list (nat * list A)) : list (nat * list A) :=
+  match d with
+  | [] => [(k, [v])]
+  | (k', m) :: r => if Nat.eqb k k' then (k', m ++ [v]) :: r else (k', m) :: dd_insert k v r
+  end.
+Definition dd_values {A} (log : list (nat * A)) : list (list A) :=
+  map snd (fold_left (fun d p => dd_insert (fst p) (snd p) d) log []).
